@@ -1017,6 +1017,10 @@ def corpus():
         {"kind": "pair", "a": ["sum", ["poly", "a"], ["p", "a"]], "b": ["sum", ["p", "a"], ["poly", "a"], ["fpoly", "a"]]},
         {"kind": "pair", "a": ["F", False, f], "b": f},
         {"kind": "pair", "a": ["L", ["V", 0, I], I], "b": ["L", ["V", 0, B], B]},
+        # two nested constants swapping their values (made a linear model hash collide)
+        {"kind": "mutate", "a": ["F", False, ["P", "f", ["p", "int"]], ["F", False, ["P", "g", ["p", "int"]], ["C", ["p", "int"], True, ["b", False]]],
+                                ["F", False, ["P", "g", ["p", "int"]], ["C", ["p", "int"], True, ["t", ["i", 1]]]]],
+         "ops": [{"path": [1, 1], "op": "assign", "value": ["t", ["i", 1]]}, {"path": [2, 1], "op": "assign", "value": ["b", False]}]},
         # minimised failures of the self-test mutations
         {"kind": "pair", "a": ["g", "list", False], "b": ["g", "list", False, I]},
         {"kind": "pair", "a": ["sum", ["poly", "a"], ["poly", "a"]], "b": ["sum", ["poly", "a"], ["poly", "a"], ["poly", "a"]]},
